@@ -36,7 +36,7 @@ from ..engine.report import AnalysisError, Run
 from ..engine.resolver import ClassInfo, FuncInfo, Program, parent_map
 from ..engine.util import canon, node_writes, nodes_with_call, u
 from ._c20_util import (Expander, bind_call, branch, calls_where, const_bool, cpath, enum_paths, equal_fact, expand_at,
-                        params_of, presence, result_expr, splice_value_calls, subst_names, walk_own)
+                        params_of, presence, rename_and_bind, result_expr, splice_procedures, splice_value_calls, subst_names, walk_own)
 
 SRC = "microgrid._data_sourcing.microgrid_api_source"
 API = f"{SRC}:MicrogridApiSource"
@@ -74,6 +74,26 @@ def _call_params(f: FuncInfo) -> list[str]:
     closures and module functions."""
     static = any(isinstance(d, ast.Name) and d.id == "staticmethod" for d in f.node.decorator_list)
     return f.params[1:] if f.cls is not None and not static and f.outer is None else f.params
+
+
+def splice(prog: Program, fn: FuncInfo, keep: set[str]) -> FuncInfo:
+    """`fn` as one unit of behaviour (analysis-only copy): private callees that merely hold a part of it are
+    spliced in - simple ones by the engine normaliser, procedures with several returns / awaits by
+    `splice_procedures`; functions named in `keep` (the role-bound ones) stay calls."""
+    node = inline_helpers(prog, fn, exclude=keep)
+
+    def resolve(c: ast.Call) -> tuple[Any, list[str]] | None:
+        t: FuncInfo | None = None
+        if _is_self_call(c) and fn.cls is not None:
+            t = prog.resolve_method(fn.cls, c.func.attr)  # type: ignore[union-attr]
+        elif isinstance(c.func, ast.Name) and c.func.id in fn.module.functions:
+            t = fn.module.functions[c.func.id]
+        if t is None or not t.name.startswith("_") or t.name.startswith("__") or t.name in keep:
+            return None
+        return t.node, _call_params(t)
+
+    node = splice_procedures(node, resolve)
+    return FuncInfo(fn.name, fn.module, node, fn.cls, fn.outer)
 
 
 def _spawn_name(c: ast.Call) -> str | None:
@@ -273,6 +293,7 @@ class Roles:
             self.gs = None  # inlined into the stream coroutine: the pairs are then built by an expression there
         # validators: what cr dispatches to per category
         self.validators: dict[str, str] = {}
+        self._val_calls: dict[str, list[ast.Call]] = {}
         per_cat: dict[str, set[str]] = {}
         if len(self.cr.params) > 2:
             for p in enum_paths(self.cr.node):
@@ -283,6 +304,7 @@ class Roles:
                     if isinstance(s_, ast.Expr) and isinstance(s_.value, ast.Await) and isinstance(s_.value.value, ast.Call) \
                             and _is_self_call(s_.value.value):
                         per_cat.setdefault(next(iter(cats)), set()).add(s_.value.value.func.attr)  # type: ignore[union-attr]
+                        self._val_calls.setdefault(next(iter(cats)), []).append(s_.value.value)
         for cat, hint in VALIDATORS.items():
             got = sorted(per_cat.get(cat, ()))
             self.validators[cat] = got[0] if len(got) == 1 and got[0] in cls.methods else hint
@@ -321,7 +343,22 @@ class Roles:
         raise AnalysisError(f"C20: several candidates for the role of {hint}: {uniq}")
 
     def validator(self, prog: Program, cat: str) -> FuncInfo:
-        return prog.func(f"{API}.{self.validators[cat]}")
+        """The validator of a category; when the dispatch passes it configuration (a table, the API stream to
+        open, ... - sibling validators merged into one parametrised helper) it is specialised with those arguments."""
+        base = prog.func(f"{API}.{self.validators[cat]}")
+        calls = list({u(c): c for c in self._val_calls.get(cat, []) if c.func.attr == base.name}.values())  # type: ignore[union-attr]
+        if len(calls) == 1:
+            b = bind_call(calls[0], _call_params(base))
+            crx = Expander(self.cr.node)
+            cfg_args = {p_: a for p_, a in (b or {}).items() if not (isinstance(a, ast.Name) and crx.is_local(a.id))}
+            if cfg_args and not any(p_ in Expander(base.node).binds for p_ in cfg_args):
+                import copy
+
+                node = copy.copy(base.node)
+                node.body = rename_and_bind(list(base.node.body), {}, cfg_args)
+                ast.fix_missing_locations(node)
+                return FuncInfo(base.name, base.module, node, base.cls, base.outer)
+        return base
 
 
 # ======================================================================================== roles of _handle_data_stream
@@ -330,7 +367,10 @@ class Stream:
 
     def __init__(self, prog: Program, ro: Roles) -> None:
         self.ro = ro
-        self.hs = hs = ro.hs
+        # the unit of behaviour is one run of the stream coroutine: private callees that merely hold a
+        # part of it (set-up, the message loop, the shutdown) are spliced in; the fan-out, which is handed
+        # to a task of its own, and the role-bound methods stay calls
+        self.hs = hs = splice(prog, ro.hs, ro.names)
         self.x = Expander(hs.node)
         self.comp_p, self.cat_p = hs.params[1], hs.params[2]
         loops = [n for n in walk_own(hs.node) if isinstance(n, ast.AsyncFor)]
@@ -358,6 +398,9 @@ class Stream:
                 elif _is_self_call(c) and hs.cls is not None:
                     target = prog.resolve_method(hs.cls, c.func.attr)  # type: ignore[union-attr]
                     ps = _call_params(target) if target is not None else []
+                elif isinstance(c.func, ast.Name) and c.func.id.startswith("_") and c.func.id in hs.module.functions:
+                    target = hs.module.functions[c.func.id]
+                    ps = target.params
                 if target is None:
                     continue
                 b = bind_call(c, ps)
@@ -552,8 +595,21 @@ def check_fan(run: Run, prog: Program, st: Stream) -> None:
     ok = pairs is not None
     built = 0
     aliased = False
+    pair_vars: set[str] = set()
     if pairs is not None:
-        vals = st.x.all_values(pairs)
+        # the values the pairs variable can hold, through plain local aliases (a spliced helper's result)
+        vals = []
+        todo = [pairs]
+        while todo:
+            nm = todo.pop()
+            if nm in pair_vars:
+                continue
+            pair_vars.add(nm)
+            for v in st.x.all_values(nm):
+                if isinstance(v, ast.Name) and st.x.is_local(v.id) and v.id not in st.x.params:
+                    todo.append(v.id)
+                else:
+                    vals.append(v)
         for v in vals:
             if isinstance(v, ast.List) and not v.elts:
                 continue
@@ -589,7 +645,8 @@ def check_fan(run: Run, prog: Program, st: Stream) -> None:
     # the build: where the pairs variable receives anything but the empty list
     build = [n.id for n in cfg.nodes if pairs is not None and n.kind == "stmt" and isinstance(n.ast, (ast.Assign, ast.AnnAssign))
              and n.ast.value is not None and not (isinstance(n.ast.value, ast.List) and not n.ast.value.elts)
-             and any(isinstance(w, ast.Name) and w.id == pairs for w in node_writes(cfg, n.id))]
+             and not isinstance(n.ast.value, ast.Name)
+             and any(isinstance(w, ast.Name) and w.id in pair_vars for w in node_writes(cfg, n.id))]
     st.build_nodes = build
     skip_edges: set[tuple[int, str]] = set()
     for t in cfg.nodes:
@@ -612,7 +669,7 @@ class Registration:
 
     def __init__(self, prog: Program, ro: Roles) -> None:
         self.fn = ro.us
-        self.node = inline_helpers(prog, ro.us, exclude=ro.names)
+        self.node = splice(prog, ro.us, ro.names).node
         self.x = x = Expander(self.node)
         self.cfg = CFG(self.node, ro.us.file)
         if not ro.us_inlined:
@@ -641,8 +698,20 @@ def check_atom(run: Run, prog: Program, st: Stream) -> None:
     dv = st.msg
     fan_txt = {st.x.x(c) for c, _f, _b in st.fan_calls}
 
+    def denotes(a: ast.AST, calls: list[ast.Call], texts: set[str]) -> bool:
+        """`a` is one of `calls`, or a local bound once to one of them (by identity; by expanded text otherwise)."""
+        if any(a is c for c in calls):
+            return True
+        if isinstance(a, ast.Name):
+            v = st.x.value_of(a.id)
+            if v is not None and any(v is c for c in calls):
+                return True
+        return st.x.x(a) in texts
+
+    fan_nodes = [c for c, _f, _b in st.fan_calls]
+
     def hands_over(c: ast.Call) -> bool:
-        return _spawn_name(c) is not None and st.x.x(c.args[0]) in fan_txt
+        return _spawn_name(c) is not None and denotes(c.args[0], fan_nodes, fan_txt)
 
     hand = nodes_with_call(cfg, hands_over)
     first = [m for m, lab in cfg.succ[h.id] if lab == "iter"]
@@ -670,7 +739,7 @@ def check_atom(run: Run, prog: Program, st: Stream) -> None:
     spawn_txt = {st.x.x(c) for c in spawns}
     pools = {c.func.value.id for c in calls_where(hs.node, lambda c: isinstance(c.func, ast.Attribute)  # type: ignore[union-attr]
              and c.func.attr in ("add", "append") and isinstance(c.func.value, ast.Name) and len(c.args) == 1
-             and st.x.x(c.args[0]) in spawn_txt, nested=False)}
+             and denotes(c.args[0], spawns, spawn_txt), nested=False)}
 
     def closes(c: ast.Call) -> bool:
         if isinstance(c.func, ast.Attribute) and c.func.attr == "close_and_remove":
@@ -1143,8 +1212,7 @@ def _find_scans(cfg: CFG, x: Expander, req: str, helpers: tuple[Program, FuncInf
 
 def _spliced(prog: Program, fn: FuncInfo, ro: Roles) -> FuncInfo:
     """The function with its simple private helpers spliced in (engine normaliser; analysis-only copy)."""
-    node = inline_helpers(prog, fn, exclude=ro.names)
-    return FuncInfo(fn.name, fn.module, node, fn.cls, fn.outer)
+    return splice(prog, fn, ro.names)
 
 
 def _rooted_at_self(text: str) -> bool:
@@ -1197,9 +1265,13 @@ def check_dedup(run: Run, prog: Program, ro: Roles) -> None:
     if ok:
         sc = scans[0]
         # every way to the append runs the whole scan; a match leads out without append / stream update
+        # (boolean flags set on the way - `found = True; break` ... `if found: return` - are followed)
+        flags = cfg.bool_flags()
         ok = cfg.path(cfg.entry, apps, avoid=[sc.gate]) is None and all(
-            cfg.path(b, apps, avoid=[sc.gate]) is None for b in sc.body_from)
-        dup_side = cfg.reachable(sc.dup_from, avoid=[sc.gate] if sc.kind == "loop" else [])
+            cfg.path_flags(b, apps, flags, avoid=[sc.gate]) is None for b in sc.body_from)
+        dup_side: set[int] = set()
+        for d in sc.dup_from:
+            dup_side |= set(cfg.flag_states(d, flags, avoid=[sc.gate] if sc.kind == "loop" else []))
         ok = ok and bool(sc.dup_from) and apps[0] not in dup_side and upd[0] not in dup_side and cfg.exit in dup_side
         between = cfg.reachable([sc.gate], avoid=apps)
         aw = [n for n in between if cfg.is_await(n) and cfg.path(n, apps) is not None and n != upd[0]]
